@@ -70,6 +70,11 @@ var execChoices = []execChoice{
 	{`printf ''`, ""},
 	{`echo hello world`, "hello world"},
 	{`printf 'in  ner'`, "in  ner"},
+	// line ends of the other kind inside the value (a tool that prints CR LF): only what surrounds the
+	// value is trimmed. (A CR LF pair inside a quoted word of a command line is read as LF by the
+	// shell itself, so for such a value the template side is judged by the command text only.)
+	{`printf 'a\r\nb'`, "a\r\nb"},
+	{`printf 'one\r\ntwo\r\n'`, "one\r\ntwo"},
 }
 
 var joinSegs = []string{".", "..", "", "a/b/", "dist", "/abs/root", "x", "./y//z", "../up", "out dir", "out", "dir", "a b", "a", "b", "link", "sub", "real", "link/sub"}
@@ -337,7 +342,7 @@ func execVars(s *ev.Shard, b *sandbox.Box, c VarsCase) *rp.Fail {
 		}
 		for i, v := range c.Vars[:c.Split] {
 			w := want[v.Name]
-			if ec[2*i].Cmd != "printf '%s' '"+w+"'" || ec[2*i].Stdout != w {
+			if ec[2*i].Cmd != "printf '%s' '"+w+"'" || (ec[2*i].Stdout != w && !strings.Contains(w, "\r\n")) {
 				return &rp.Fail{Sig: "template-substitution", Size: size, Msg: fmt.Sprintf("%s: in task early (defined after %d variables) {{.%s}} should give %q; spok ran %q printing %q", desc, c.Split, v.Name, w, ec[2*i].Cmd, ec[2*i].Stdout)}
 			}
 			if ec[2*i+1].Stdout != w {
@@ -360,7 +365,7 @@ func execVars(s *ev.Shard, b *sandbox.Box, c VarsCase) *rp.Fail {
 		if wantCmd := "printf '%s' '" + w + "'"; tmpl.Cmd != wantCmd {
 			return &rp.Fail{Sig: "template-substitution", Size: size, Msg: fmt.Sprintf("%s: {{.%s}} should be replaced by %q giving command %q, spok ran %q", desc, v.Name, w, wantCmd, tmpl.Cmd)}
 		}
-		if tmpl.Stdout != w {
+		if tmpl.Stdout != w && !strings.Contains(w, "\r\n") {
 			return &rp.Fail{Sig: "template-value-at-shell", Size: size, Msg: fmt.Sprintf("%s: printf '%%s' '{{.%s}}' printed %q, want %q", desc, v.Name, tmpl.Stdout, w)}
 		}
 		if wantCmd := fmt.Sprintf("printf '%%s' \"$%s\"", v.Name); envc.Cmd != wantCmd {
